@@ -58,6 +58,9 @@ pub struct WorldCfg {
     pub ta_issued_reissue_weeks: i64,
     pub ta_msg_valid_days: i64,
     pub num_threads: usize,
+    /// run the TA proxy only; the signer is a separate installation
+    #[serde(default)]
+    pub remote_signer: bool,
 }
 
 impl Default for WorldCfg {
@@ -89,6 +92,7 @@ impl Default for WorldCfg {
             ta_issued_reissue_weeks: 26,
             ta_msg_valid_days: 14,
             num_threads: 2,
+            remote_signer: false,
         }
     }
 }
@@ -118,7 +122,7 @@ log_level = "{log_level}"
 admin_token = "verif-admin-token"
 use_history_cache = {history_cache}
 ta_support_enabled = true
-ta_signer_enabled = true
+ta_signer_enabled = {ta_signer}
 bgp_riswhois_enabled = false
 unix_socket_enabled = false
 num_threads = {num_threads}
@@ -151,6 +155,7 @@ signed_message_validity_days = {tad}
             dir = dir.display(),
             log_level = std::env::var("KVH_LOG").unwrap_or("off".into()),
             history_cache = self.history_cache,
+            ta_signer = !self.remote_signer,
             num_threads = self.num_threads,
             agg = self.agg,
             deagg = self.deagg,
